@@ -297,7 +297,7 @@ theorem ctx_sign_error_no_candidate (sc : Script) (priv e : Bytes)
     (h : (Proofs.SM2Reader.dataBefore sc).length < 32) : signHashed ctx sc priv e = .err :=
   C19.sign_error_no_candidate ctx ctx_facts.n_eq sc priv e h
 
-/-! ## Non-vacuity: the example of the standard (GB/T 32918.2-2016 Annex A / GM/T 0003.5 curve)
+/-! ## Non-vacuity: the example of the standard (the recommended-curve example of GB/T 32918.5-2017 / GM/T 0003.5-2012 Annex A)
 
     d = 3945208F…, public key (09F9DF31…, CCEA490C…), id "1234567812345678", M "message digest",
     e = F0B43E94…, k = 59276E27…, r = F5A03B06…, s = B1B6AA29…  The SPECIFICATION side is evaluated in
@@ -324,6 +324,10 @@ theorem standard_example_derive : Spec.SM2.derive exD = some (exPx, exPy) := by 
 
 theorem standard_example_digest :
     (Spec.SM2.za exId exPx exPy).map (fun z => Spec.SM2.digest z exMsg) = some exE := by decide +kernel
+
+/-- the specification's verifier accepts the standard's example signature — evaluated directly in the kernel,
+    independently of the theorem chain (a test of `Spec.SM2.verify`, labelled as such) -/
+theorem standard_example_verify : Spec.SM2.verify exPx exPy exE exR exS = true := by decide +kernel
 
 theorem exE_length : exE.length = 32 := Proofs.SM2SignBytes.ofNatBE_length 32 _
 
@@ -413,6 +417,7 @@ open SMGo.Props.SM2
 #print axioms standard_example_digest
 #print axioms ctx_standard_example_signHashed
 #print axioms ctx_standard_example_derivePublic
+#print axioms standard_example_verify
 #print axioms ctx_standard_example_verifyHashed
 #print axioms ctx_standard_example_sign
 #print axioms ctx_standard_example_verify
